@@ -45,7 +45,12 @@ for n in (1, 2):
     try:
         rc, tail = demo(n)
         r["demo_patched"] = rc
-        b = sh(f"python3 /verif/tools/baseline.py {wt}")
+        # the pinned command uses --doctest-modules, which imports every .py below the root: keep the demos out of its way
+        sh(f"mkdir -p {wt}/.hold && mv {wt}/demo*.py {wt}/.hold/")
+        try:
+            b = sh(f"python3 /verif/tools/baseline.py {wt}")
+        finally:
+            sh(f"mv {wt}/.hold/demo*.py {wt}/ && rmdir {wt}/.hold")
         r["suite"] = b.stdout.strip().splitlines()[:4]
         rc, viol = check(pid)
         r["check_rc"] = rc
